@@ -165,3 +165,56 @@ Proof.
   - eauto.
 Qed.
 Print Assumptions gen_try_read_100_ok.
+
+(* ------------------------------------------------------------------ Flow::new: the flags and the initial close reasons *)
+Definition is_v10 (v : version) : bool := match v with V10 => true | _ => false end.
+
+(** As a table (evaluated on every combination of flags): independent of how the source orders its statements. *)
+Lemma gen_flow_new_table h10 cc nb ex :
+  gen_flow_new h10 cc nb ex (Ok tt)
+  = Ok ((if h10 then [Http10] else []) ++ (if cc then [ClientConnectionClose] else []), nb, ex).
+Proof. destruct h10, cc, nb, ex; vm_compute; reflexivity. Qed.
+
+Lemma gen_flow_new_ok r f :
+  flow_new r = Ok f ->
+  gen_flow_new (is_v10 (rq_version r)) (headers_has (rq_headers r) (s2b "connection") (s2b "close"))
+               (need_request_body (rq_method r)) (headers_has (rq_headers r) (s2b "expect") (s2b "100-continue")) (Ok tt)
+  = Ok (i_reasons f, i_should_send_body f, i_await_100 f).
+Proof.
+  rewrite gen_flow_new_table. unfold flow_new, is_v10.
+  destruct (rq_version r); cbn [bind];
+    destruct (headers_has (rq_headers r) (s2b "connection") (s2b "close"));
+    vm_compute push_reason; cbn [bind]; intros H; inversion H; subst; reflexivity.
+Qed.
+Print Assumptions gen_flow_new_ok.
+Print Assumptions gen_flow_new_table.
+
+(* ------------------------------------------------------------------ Flow<RecvResponse>::try_response *)
+(** What the flow does with the call's answer: skip a delayed 100 while one is awaited, record status and the last Location, add the
+    server's Connection: close as a close reason, hand the response out. *)
+Lemma gen_try_response_ok f input c c' got :
+  as_recv_response f = Ok c ->
+  call_try_response c input = Ok (c', got) ->
+  match recv_try_response f input with
+  | Ok (f', used, orsp) =>
+      gen_try_response (i_reasons f) (i_await_100 f) (i_status f) (i_location f) (Ok got)
+      = Ok (i_reasons f', i_await_100 f', i_status f', i_location f', (used, orsp))
+  | Err e => gen_try_response (i_reasons f) (i_await_100 f) (i_status f) (i_location f) (Ok got) = Err e
+  | Panic _ => exists s, gen_try_response (i_reasons f) (i_await_100 f) (i_status f) (i_location f) (Ok got) = Panic s
+  end.
+Proof.
+  intros Hc Ht. unfold recv_try_response. rewrite Hc. cbn [bind]. rewrite Ht. cbn [bind].
+  unfold gen_try_response, resp_status, resp_last_location, resp_has_close, set_await, set_call.
+  destruct f as [c0 h rs0 ssb aw st loc]. cbn [i_reasons i_should_send_body i_await_100 i_call i_holder i_status i_location bind].
+  destruct got as [[used rsp]|]; [|reflexivity].
+  destruct (N.eqb_spec (rs_status rsp) 100) as [E|E]; cbn [andb].
+  - destruct aw; cbn [andb i_reasons i_should_send_body i_await_100 i_call i_holder i_status i_location].
+    + reflexivity.
+    + destruct (headers_has (hm_iter (rs_headers rsp)) (s2b "connection") (s2b "close")).
+      * destruct (add_reason rs0 ServerConnectionClose) as [rs|e|s]; cbn [bind i_reasons i_await_100 i_status i_location]; [reflexivity|reflexivity|eauto].
+      * cbn [bind i_reasons i_await_100 i_status i_location]. reflexivity.
+  - destruct (headers_has (hm_iter (rs_headers rsp)) (s2b "connection") (s2b "close")).
+    + destruct (add_reason rs0 ServerConnectionClose) as [rs|e|s]; cbn [bind i_reasons i_await_100 i_status i_location]; [reflexivity|reflexivity|eauto].
+    + cbn [bind i_reasons i_await_100 i_status i_location]. reflexivity.
+Qed.
+Print Assumptions gen_try_response_ok.
